@@ -451,8 +451,8 @@ func fieldName(fa *ssa.FieldAddr) string {
 	if !ok {
 		return "?"
 	}
-	tn := typeString(pt.Elem())
-	return lastSeg(tn) + "." + st.Field(fa.Field).Name()
+	tn := lastSeg(typeString(pt.Elem()))
+	return tn + "." + refFieldName(tn, st.Field(fa.Field).Name())
 }
 
 func fieldNameV(f *ssa.Field) string {
@@ -460,7 +460,8 @@ func fieldNameV(f *ssa.Field) string {
 	if !ok {
 		return "?"
 	}
-	return lastSeg(typeString(f.X.Type())) + "." + st.Field(f.Field).Name()
+	tn := lastSeg(typeString(f.X.Type()))
+	return tn + "." + refFieldName(tn, st.Field(f.Field).Name())
 }
 
 func originsString(os []Origin) string {
